@@ -181,6 +181,9 @@ def f64_eval(h, scenario, cfg, inputs, profile="dev"):
     return d
 
 
+EXACT_NATIVE = {"C18.epsilon_abs"}
+
+
 def numeric_failures(doc64, prefixes, tol=1e-6):
     """obligations that fail numerically in a native f64 run: list of (name, label, lhs, rhs)"""
     bad = []
@@ -204,6 +207,10 @@ def numeric_failures(doc64, prefixes, tol=1e-6):
         for (label, l, r) in ob["eqs"]:
             if not isinstance(l, (int, float)) or not isinstance(r, (int, float)):
                 bad.append((ob["name"], label, l, r))
+            elif ob["name"] in EXACT_NATIVE:
+                # quantities that are exact in floating point as well (|eps| is stored, not computed)
+                if l != r:
+                    bad.append((ob["name"], label, l, r))
             elif abs(l - r) > tol * scale:
                 bad.append((ob["name"], label, l, r))
         for (label, l, op, r) in ob.get("ineqs", []):
@@ -279,13 +286,18 @@ class Encoded:
 
 def _pc_holds_numerically(arena, doc):
     """the recorded decisions evaluated in floating point at the recorded inputs: (number violated beyond rounding, total)"""
-    val = arena.float_values(doc["vars"])
+    try:
+        val = arena.float_values(doc["vars"], dps=60)
+        rel = 1e-25
+    except ImportError:
+        val = arena.float_values(doc["vars"])
+        rel = 1e-9
     bad = 0
     for (a, op, b, o) in doc["trace"]:
         x, y = val[a], val[b]
         if x is None or y is None:
             continue
-        tol = 1e-9 * max(1.0, abs(x), abs(y))
+        tol = rel * max(1.0, abs(x), abs(y))
         ok = {">": x > y - tol, ">=": x >= y - tol, "<": x < y + tol, "<=": x <= y + tol, "=": abs(x - y) <= tol, "!=": True}.get(op, True)
         ok_neg = {">": x <= y + tol, ">=": x < y + tol, "<": x >= y - tol, "<=": x > y - tol, "=": True, "!=": abs(x - y) <= tol}.get(op, True)
         if not (ok if o else ok_neg):
@@ -294,11 +306,11 @@ def _pc_holds_numerically(arena, doc):
 
 
 def select_decisions(arena, trace, free, limit=250):
-    """recorded decisions that depend on the generalised (free) terms through small terms"""
+    """recorded decisions that are small terms once the generalised (free) terms are opaque"""
     sel = []
     for (a, op, b, o) in trace:
         c = arena.cone({a, b}, stop=free)
-        if len(c) <= limit and any(x in free for x in c):
+        if len(c) <= limit:
             sel.append((a, op, b, o))
     return sel
 
@@ -325,6 +337,8 @@ def analyze_generalised(h, res, scenario, cfg, doc, arena, obs, facts, cuts, pre
     if doc.get("garbage_reads", 0) > 0:
         record_violation(h, res, scenario, cfg, doc, "C10.no_garbage", f"{doc.get('garbage_reads')} reads of uninitialised scalars", prefixes, replay_dir, inputs=doc["vars"], native_confirm=False)
     # vacuity guard: the path condition is satisfied by the recorded inputs (floating-point evaluation of the exact terms)
+    if doc.get("undefined_decisions", 0) > 0:
+        res.tool_errors.append(f"{cfg_label}: {doc['undefined_decisions']} decisions were taken on undefined (NaN-like) shadow values: path not meaningful")
     badpc, npc = _pc_holds_numerically(arena, doc)
     if badpc:
         res.tool_errors.append(f"{cfg_label}: {badpc} of {npc} recorded decisions do not hold at the recorded inputs (shadow rounding): path not witnessed")
@@ -358,6 +372,8 @@ def analyze_generalised(h, res, scenario, cfg, doc, arena, obs, facts, cuts, pre
             pc = [f"(assert {arena.rel(x, op, y, o)})" for (x, op, y, o) in sel]
             gv = [f"(assert {arena.rel(x, op, y)})" for (x, op, y) in given]
             try:
+                if len(ids) > 600:
+                    raise ToolFailure("cone too large for the fraction-free encoding")
                 ff = smt.FF(arena, ids, free=free)
                 base = ff.lines + ff.constraints_for(ids) + [f"(assert {ff.rel(x, op, y, o)})" for (x, op, y, o) in sel]
                 vs.append((f"abstract{limit}-ff", base, [f"(assert {ff.rel(x, op, y)})" for (x, op, y) in given] + [f"(assert {ff.rel(a, '!=', b)})"]))
